@@ -80,7 +80,7 @@ def tm1(ctx, R):
             if not is_toc:
                 continue
             n += 1
-            pre, body = _format_parts(calls[0].args[0])
+            pre, body = _format_parts(calls[0].args[0], fi)
             lit = body if pre is None else (pre.value if isinstance(pre, ast.Constant) else None)
             fmt_txt = unparse(calls[0].args[0])
             good = (pre is None and isinstance(body, str) and body.startswith("<")) or (isinstance(pre, ast.Constant) and pre.value == "<")
